@@ -447,3 +447,30 @@ def local_muts(w):
         else:
             out.append(e)
     return out
+
+
+def rule_config_index_tables(cx, rule, which=('user_config_idxs', 'oper_config_idxs'), prog=None):
+    """the name -> position tables of configured users / operators are built from the configuration itself: every entry's name,
+       verbatim, mapped to its index, and never written afterwards (shared: C03, C11, C20; C05 rechecks the same for its unwraps)"""
+    prog = prog or cx.prog
+    P_ = lambda n: ('param', n)
+    fm = cx.fn('new_from_config', 'MainState', prog=prog)
+    wm = cx.walk(fm, prog=prog, args=[P_('config')])
+    lit = [e for e in wm.events if e.kind == 'adt' and e.data['adt'].endswith('MainState')]
+    ins = [e for e in wm.events if e.kind == 'local_mut' and e.data['method'] == 'insert']
+    lists = {'user_config_idxs': 'users', 'oper_config_idxs': 'operators'}
+    for f_ in which:
+        l_ = lists[f_]
+        lst = ('some_of', ('field', P_('config'), l_))
+        rule.instance('%s maps every configured %s name to its position' % (f_, l_[:-1]))
+        v = lit[0].data['fields'].get(f_) if len(lit) == 1 else None
+        ok = False
+        if isinstance(v, tuple) and v[:1] == ('mapped',):
+            ok = v[1] == ('enum', lst) and v[2] == ('tuple', ('field', ('elem', lst), 'name'), ('index_of', lst)) and v[3] in (('T',), T)
+        elif isinstance(v, tuple) and v[:1] == ('local',):
+            mine = [e for e in ins if e.data['local'] == v]
+            ok = len(mine) == 1 and mine[0].data['args'] == [('field', ('elem', lst), 'name'), ('index_of', lst)]
+        if not ok:
+            rule.violation('MainState::new_from_config|%s' % f_, 'the table %s is not {entry.name -> position} over config.%s: a configured %s '
+                           'is not found under its own name (its password / mask is then not applied) or found under another one'
+                           % (f_, l_, l_[:-1]), loc=fm)
